@@ -69,6 +69,45 @@ CRASH_IS_VIOLATION = False
 MAX_LIVE = 5
 
 
+def context(f, info):
+    """input class of the receiver, recorded at the head of a failure's
+    detail so that known-finding matchers can be narrow"""
+    flags = ['cls=' + info.cls]
+    if info.disk:
+        flags.append('disk')
+    if any(vd == () for vd, _ in info.vars.values()):
+        flags.append('scalarvar')
+    if not info.numeric:
+        flags.append('charvar')
+    try:
+        if any(k not in info.vars for k in f.getCoords()):
+            flags.append('coordsmissing')
+    except Exception:
+        pass
+    if info.ioapi_degraded:
+        flags.append('degraded')
+    return 'ctx{%s}' % ';'.join(flags)
+
+
+def bad_dims(f):
+    """names of the dimensions whose length disagrees with a variable's
+    shape (classification only; the verdict is vf.spec.wellformed)"""
+    out = []
+    try:
+        dl = {k: len(d) for k, d in f.dimensions.items()}
+        for k in f.variables.keys():
+            v = f.variables[k]
+            vd = tuple(v.dimensions)
+            if len(vd) != len(v.shape):
+                continue
+            for d, n in zip(vd, v.shape):
+                if d in dl and dl[d] != n and d not in out:
+                    out.append(d)
+    except Exception:
+        pass
+    return out
+
+
 class Entry(object):
     def __init__(self, f, depth=0, changed=False, multi=False):
         self.f = f
@@ -95,6 +134,8 @@ class Run(object):
         if init.get('kind') == 'ioapi':
             r.label('init:ioapi', 'init:ioapi-perim' if init.get('perim')
                     else 'init:ioapi-grid')
+            if init.get('disk'):
+                r.label('init:ioapi-disk')
         else:
             r.label('init:' + init.get('route', 'create'))
             if not info.numeric:
@@ -115,7 +156,7 @@ class Run(object):
         self.check_file(f, e.unl, 'initial', 'init')
 
     # -------------------------------------------------------------- oracle
-    def check_file(self, f, expect_unl, what, klass):
+    def check_file(self, f, expect_unl, what, klass, ctx=''):
         r = self.r
         try:
             msgs = S.wellformed(f, what)
@@ -125,9 +166,11 @@ class Run(object):
             # e.g. a "variable" that is a bare ndarray without ncattrs()
             msgs = ['%s: not inspectable as a netCDF-like file: %s: %s' % (
                 what, type(e).__name__, str(e)[:200])]
-        for m in msgs[:3]:
-            r.fail('malformed', m, klass=klass)
         if msgs:
+            bd = bad_dims(f)
+            for m in msgs[:3]:
+                r.fail('malformed', '%s baddims=%s %s' % (
+                    ctx, ','.join(bd), m), klass=klass)
             return False
         ok = True
         for k, d in f.dimensions.items():
@@ -158,6 +201,7 @@ class Run(object):
         ood = step.get('ood')
         lenient = bool(ood) or before.ioapi_degraded or before.repeated
         klass = '%s:%s' % (op, before.cls)
+        ctx = context(f, before)
         r.label('op:' + op)
         if ood:
             r.label('ood:' + ood)
@@ -174,10 +218,10 @@ class Run(object):
         except Exception as e:
             if lenient:
                 r.label('ood-raised' if ood else 'degraded-raised')
-                self.check_live(klass)
+                self.check_live(klass, ctx)
                 return
-            r.fail('in-domain-raised', '%s(%s) on %s file: %s: %s' % (
-                op, step['args'], before.cls, type(e).__name__,
+            r.fail('in-domain-raised', '%s %s(%s) on %s file: %s: %s' % (
+                ctx, op, step['args'], before.cls, type(e).__name__,
                 str(e)[:300]), where=exc_where(e), klass=klass)
             self.dead = True
             return
@@ -189,8 +233,8 @@ class Run(object):
             for old, new in step['args']['ren']:
                 if old in expect:
                     expect[new] = expect.pop(old)
-        ok = self.check_file(out, expect, 'result of %s' % op, klass)
-        self.check_live(klass)
+        ok = self.check_file(out, expect, 'result of %s' % op, klass, ctx)
+        self.check_live(klass, ctx)
         if not ok or r.failures:
             self.dead = True
             return
@@ -213,10 +257,10 @@ class Run(object):
         if any(l == 0 for l, _ in after.dims.values()):
             r.label('result:len0-dim')
 
-    def check_live(self, klass):
+    def check_live(self, klass, ctx=''):
         for i, e in enumerate(self.files):
             self.check_file(e.f, e.unl, 'live file %d' % i,
-                            klass + '/live')
+                            klass + '/live', ctx)
 
     def finish(self):
         r = self.r
@@ -237,6 +281,53 @@ class Run(object):
         self.keep = []
         gc.collect()
         return r
+
+
+# ------------------------------------------------------------------ known
+def _ctx(f):
+    d = f.detail
+    if d.startswith('ctx{'):
+        return d[4:d.index('}')].split(';')
+    return []
+
+
+def _has_step(journal, op):
+    return any(s.get('op') == op and not s.get('ood')
+               for s in journal.get('steps', []))
+
+
+known.register('C01-reorder-dims', lambda spec, f: (
+    f.klass.startswith('reorder:') and (
+        (f.clause == 'in-domain-raised' and f.where in (
+            'AssertionError@core/_files.py:reorderDimensions',
+            'AttributeError@core/_files.py:reorderDimensions')) or
+        (f.clause == 'malformed' and 'ncattrs' in f.detail and
+         '/live' not in f.klass))))
+
+known.register('C01-coords-missing', lambda spec, f: (
+    f.clause == 'in-domain-raised' and
+    f.where == 'KeyError@core/_files.py:subsetVariables' and
+    f.klass.split(':')[0] in ('subset', 'eval') and
+    'coordsmissing' in _ctx(f)))
+
+known.register('C01-rmsing-char', lambda spec, f: (
+    f.clause == 'in-domain-raised' and
+    f.where == 'TypeError@core/_files.py:removeSingleton' and
+    f.klass.startswith('rmsing:') and 'charvar' in _ctx(f)))
+
+known.register('C01-eval-masked-scalar', lambda spec, f: (
+    f.clause == 'in-domain-raised' and
+    f.where == 'AttributeError@core/_variables.py:__new__' and
+    f.klass.startswith('eval:') and 'scalarvar' in _ctx(f)))
+
+known.register('C01-ioapi-rename-varlist', lambda spec, f: (
+    f.clause == 'malformed' and 'baddims=VAR ' in f.detail and
+    'cls=ioapi' in _ctx(f) and 'degraded' not in _ctx(f) and
+    _has_step(spec, 'renvar')))
+
+known.register('C01-ioapi-var-redim', lambda spec, f: (
+    f.clause == 'malformed' and 'baddims=VAR ' in f.detail and
+    'cls=ioapi' in _ctx(f) and 'degraded' in _ctx(f)))
 
 
 # ------------------------------------------------------------------ search
